@@ -631,7 +631,11 @@ def first_use_purity(ctx, codes_from, make_jobs, rng, runs, cls="first_use_calls
             concurrent_purity(ctx, codes_from(M), make_jobs(M), rng, 1, cls=cls, **kw)
 
 
-def stateful_codes(*modules):
+PROCESS_STATE_NAMES = {"set_int_max_str_digits", "setrecursionlimit", "setswitchinterval", "environ", "putenv", "setlocale", "simplefilter", "filterwarnings", "resetwarnings",
+                       "setcontext", "getcontext", "localcontext", "setprofile", "settrace", "chdir", "umask", "seed", "setstate", "set_threshold", "displayhook", "excepthook"}
+
+
+def stateful_codes(*modules, **opt):
     """Code objects of `modules` (functions, methods, nested code) that write a module global, read a module-level mutable
     container (list / dict / set / bytearray), or carry a mutable default argument: the places where state outliving a call -
     lazily built tables, memos, registries - can live.  Yield points there are what first-use / shared-memo races need."""
@@ -671,8 +675,11 @@ def stateful_codes(*modules):
                         if ins.opname in ("STORE_GLOBAL", "DELETE_GLOBAL"):
                             hit = True
                             break
-                        if ins.opname in ("LOAD_GLOBAL", "LOAD_NAME") and isinstance(g.get(ins.argval), (list, dict, set, bytearray)):
+                        if not opt.get("writers_only") and ins.opname in ("LOAD_GLOBAL", "LOAD_NAME") and isinstance(g.get(ins.argval), (list, dict, set, bytearray)):
                             hit = True
+                            break
+                        if ins.opname in ("LOAD_ATTR", "LOAD_METHOD", "LOAD_GLOBAL", "LOAD_NAME") and ins.argval in PROCESS_STATE_NAMES:
+                            hit = True       # touches state of the whole process (interpreter limits, warning filters, locale, environment, ...)
                             break
                 if hit:
                     seen.add(code)
@@ -688,7 +695,7 @@ class _NoFresh(object):
         return False
 
 
-def first_use_systematic(ctx, codes_from, make_jobs, rng, pairs, cls="first_use_systematic", max_positions=60, timeout=30.0, fresh=True, pick=None):
+def first_use_systematic(ctx, codes_from, make_jobs, rng, pairs, cls="first_use_systematic", max_positions=60, timeout=30.0, fresh=True, pick=None, bound=1, limit=None):
     """Every single-preemption schedule of a first use: on a fresh instance of the package thread A makes the first call; at its
     i-th yield point (for EVERY i, up to max_positions sampled) it is suspended, thread B makes its call to completion, A
     resumes.  Results must equal the sequential ones."""
@@ -736,6 +743,6 @@ def first_use_systematic(ctx, codes_from, make_jobs, rng, pairs, cls="first_use_
                 if not ok and s.aborted == "watchdog":
                     ctx.count("watchdog_inconclusive")
                 return min(dec.state["i"], max_positions)
-        for _d in enumerate_delays(run_once, 1, None, None):
+        for _d in enumerate_delays(run_once, bound, limit, rng if limit else None):
             if ctx.expired():
                 break
